@@ -255,6 +255,11 @@ class Kernel:
         me._blocked_on = None
         return me._wake_reason
 
+    def freeze(self):
+        """The run is over: the workload thread inspects the final state with no further scheduling."""
+        sys.settrace(None)
+        self.active = False
+
     def crash(self):
         """Process-death fault: no simulated thread runs another step."""
         self.killing = True
